@@ -109,9 +109,9 @@ pub fn parse_rowan(text: &str) -> P {
 }
 
 /// the default parser's known defect: a unary operator whose operand is a multiplicative expression
-fn unary_over_mul(tree: &str) -> bool {
+fn unary_over_mul(tree: &str) -> usize {
 	let toks: Vec<&str> = tree.split(' ').collect();
-	toks.windows(4).any(|w| w[0].trim_start_matches('(') == "un" && w[0].starts_with('(') && w[2].trim_start_matches('(') == "bin" && ["*", "/", "%"].contains(&w[3]))
+	toks.windows(4).filter(|w| w[0].trim_start_matches('(') == "un" && w[0].starts_with('(') && w[2].trim_start_matches('(') == "bin" && ["*", "/", "%"].contains(&w[3])).count()
 }
 
 fn op_level(op: &str) -> &'static str {
@@ -237,7 +237,7 @@ pub fn compare(rep: &mut Report, text: &str, expect: Option<&str>, cost: u32, _c
 	match (&d, &l) {
 		(P::Ok(a), P::Ok(b)) => {
 			if a != b {
-				let key = if unary_over_mul(a) && !unary_over_mul(b) { "unary operator applied to a whole * / % expression by the default parser".to_owned() } else { tree_diff_key(a, b) };
+				let key = if unary_over_mul(a) > unary_over_mul(b) { "unary operator applied to a whole * / % expression by the default parser".to_owned() } else { tree_diff_key(a, b) };
 				viol(format!("tree-mismatch default-vs-legacy {key}"), format!("default: {a}\nlegacy:  {b}"));
 			}
 		}
@@ -266,7 +266,7 @@ pub fn compare(rep: &mut Report, text: &str, expect: Option<&str>, cost: u32, _c
 		for (name, p) in [("default", &d), ("legacy", &l)] {
 			match p {
 				P::Ok(c) if c != exp => {
-					let key = if unary_over_mul(c) && !unary_over_mul(exp) { "unary operator applied to a whole * / % expression".to_owned() } else { tree_diff_key(exp, c) };
+					let key = if unary_over_mul(c) > unary_over_mul(exp) { "unary operator applied to a whole * / % expression".to_owned() } else { tree_diff_key(exp, c) };
 					viol(format!("tree-differs-from-grammar {name} {key}"), format!("expected: {exp}\n{name}: {c}"))
 				}
 				P::Rej(m, o) => {
